@@ -351,7 +351,7 @@ func c19GraphLines(g syntax.CallGraphNode) (lines []string, odd string, err erro
 
 // c19GraphLe: every node of `after` is a node of `before` with the same callable, kind, resolved
 // outputs and retained references, and every resolved input of it is an input of the original
-// node with the same resolved value (the conclusion of remove_unused_calls_loop_graph_partial).
+// node with the same resolved value (the upper bound remove_unused_calls_loop_graph_upper_bound_partial; the exact statement is checked through C19.gpred).
 func c19GraphLe(after, before []*c19GNode) string {
 	idx := map[string]*c19GNode{}
 	for _, n := range before {
@@ -722,7 +722,7 @@ func c19GraphTheorems(c *Ctx, cs *c19Case, plain *syntax.Ast, base *c19Compiled)
 			continue
 		}
 		if cd.op == "removeCalls" {
-			// the conclusion of remove_unused_calls_loop_graph_partial on the REAL graphs before / after the real edit
+			// the upper bound remove_unused_calls_loop_graph_upper_bound_partial on the REAL graphs before / after the real edit
 			bn, odd1, err1 := c19GraphNodes(base.Graph)
 			an, odd2, err2 := c19GraphNodes(after.Graph)
 			if err1 != nil || err2 != nil || odd1 != "" || odd2 != "" {
@@ -730,12 +730,28 @@ func c19GraphTheorems(c *Ctx, cs *c19Case, plain *syntax.Ast, base *c19Compiled)
 			}
 			if d := c19GraphLe(an, bn); d != "" {
 				r.violate(Violation{Kind: "property", Key: "C19:graph-theorem:remove-unused-calls-changed-a-remaining-node",
-					What:   "after the real `remove unused calls` edit a remaining node of the resolved call graph differs from the node before (StructOK holds, so remove_unused_calls_loop_graph_partial applies): " + d,
+					What:   "after the real `remove unused calls` edit a remaining node of the resolved call graph differs from the node before (StructOK holds, so remove_unused_calls_loop_graph_exact_partial applies): " + d,
 					Input:  c19Replay{Program: cs.Src, Edit: e, Note: "found in " + cs.Name},
 					Impl:   out,
-					Broken: "Props.C19.remove_unused_calls_loop_graph on the real code"})
+					Broken: "Props.C19.remove_unused_calls_loop_graph_exact_partial on the real code"})
 			} else {
 				r.hist(fmt.Sprintf("graph-theorem:removeCalls:real-graph-le(removed-nodes=%d)", len(bn)-len(an)))
+			}
+			// the EXACT conclusion (remove_unused_calls_loop_graph_exact_partial): the real graph after the real edit is
+			// the model's original graph restricted to the calls every pass keeps, minus the cascaded input keys
+			if real, odd, err := c19GraphLines(after.Graph); err == nil && odd == "" {
+				pred := c19ModelGraphLines(c.Drv.Ask("C19.gpred", enc, types, cd.op, "-", "-", "-"))
+				if strings.Join(real, "\n") != strings.Join(pred, "\n") {
+					r.hist("graph-theorem:removeCalls:exact-prediction-DIFFERENT")
+					r.violate(Violation{Kind: "property", Key: "C19:graph-theorem:remove-unused-calls-real-graph-differs-from-exact-prediction",
+						What:   "after the real `remove unused calls` edit the real call graph is not the original graph restricted to the calls the passes keep minus the cascaded inputs (the conclusion of remove_unused_calls_loop_graph_exact_partial, whose hypothesis StructOK holds for this program); " + f["passes"] + " pass(es)",
+						Input:  c19Replay{Program: cs.Src, Edit: e, Note: "found in " + cs.Name},
+						Impl:   strings.Join(real, "\n"),
+						Model:  strings.Join(pred, "\n"),
+						Broken: "Props.C19.remove_unused_calls_loop_graph_exact_partial on the real code"})
+				} else {
+					r.hist("graph-theorem:removeCalls:exact-prediction-equals-real-graph(passes=" + f["passes"] + ")")
+				}
 			}
 			continue
 		}
